@@ -5,6 +5,11 @@ from .env import SPEC, BUILD, ToolError, scratch
 JAR = "/opt/veriftools/tla/tla2tools.jar:/opt/veriftools/tla/CommunityModules-deps.jar"
 
 
+import threading
+_meta_seq = 0
+_meta_lock = threading.Lock()
+
+
 class TlcResult:
     def __init__(self):
         self.ok = False            # completed without error
@@ -66,7 +71,12 @@ def run_tlc(module, cfg, workers=4, env=None, timeout=600, simulate=None, depth=
             coverage=True, deque=False, xmx="4g", dfid=None, extra=None, cwd=None, aril=None):
     """module, cfg: file names relative to spec dir (or absolute)."""
     cwd = cwd or SPEC
-    meta = scratch("tlc-" + os.path.basename(module).replace(".tla", ""))
+    global _meta_seq
+    with _meta_lock:
+        _meta_seq += 1
+        seq = _meta_seq
+    meta = os.path.join(scratch("tlc-" + os.path.basename(module).replace(".tla", "")), "m%d" % seq)
+    os.makedirs(meta, exist_ok=True)
     if deque:
         # trace validation: many small single-worker JVMs run side by side; a serial collector, C1 only
         # and a small fingerprint set avoid most of the start-up and page-fault cost (measured 31 s -> 12 s)
